@@ -32,3 +32,23 @@ Proof. exact (@collapse_res_ok). Qed.
 (** after clear no pushed payload is accounted any more *)
 Theorem C18_owned_clear : forall T sz s, r_used (owned_res T sz) (clear (owned T) s) = [0].
 Proof. exact (@owned_clear_used). Qed.
+
+(** "Used bytes never decrease on push" for EVERY combinator (Resource/ResMono.v): for columns (whose
+    number of heap_size callbacks grows with the widest row), consecutive pairs and slices over the
+    compressed index containers the statement is about the SUM over all callbacks ... *)
+From FC Require Import Resource.ResMono Region.Consec Region.Columns Model.Wire Model.Catalogue Model.CatalogueOk.
+Theorem C18_columns_monotone : forall (R : Region) (SP : RSpec R) (O : IC nat) (HO : ICOk O), ICUsedMono O ->
+  forall chk (V : Res R), ResMono R V -> forall csz isz, ResMono (columns R O chk) (columns_res O chk csz isz V).
+Proof. exact (@columns_res_mono). Qed.
+Theorem C18_consec_monotone : forall (R : Region) (SP : RSpec R) (H : RegionOK R) (PI : PairIdx R) (D : Dense R)
+  (O : IC nat) (HO : ICOk O), ICUsedMono O -> forall chk (V : Res R), ResMono R V -> ResMono (consec R O chk) (consec_res O chk V).
+Proof. exact (@consec_res_mono). Qed.
+(** ... and it holds for EVERY region of the catalogue (the [entry] function the correspondence runs and whose
+    [r_used] figures the check compares with the crate's heap_size callback by callback), except entries 21 and 29. *)
+Theorem C18_catalogue : forall chk szs n e, entry chk szs n = Some e -> n <> 21%N -> n <> 29%N ->
+  exists SP : RSpec (mr e), forall s v s' i, @inv _ SP s -> push (mr e) s v = Ok (s', i) ->
+    total (r_used (m_res e) s) <= total (r_used (m_res e) s').
+Proof.
+  intros chk szs n e He H21 H29. destruct (@catalogue_full chk szs n e He H21 H29) as (SP & IS & _ & _ & _ & HV).
+  exists SP. exact HV.
+Qed.
